@@ -25,6 +25,17 @@ Theorem c10_toggle_all : forall s, SelInv s -> multi s = true -> (0 < nitems s)%
 Proof. exact toggle_all_sel. Qed.
 Print Assumptions c10_toggle_all.
 
+(** programmatic selection (append-and-select, pre-selection): insertion, ignored in single mode *)
+Theorem c10_select_raw : forall s r idx id, SelInv s ->
+  (multi s = false -> act_select_raw_item s r idx id = s) /\
+  (multi s = true -> forall k, m_contains (selected (act_select_raw_item s r idx id)) k =
+                               key_eqb k (r, idx) || m_contains (selected s) k).
+Proof.
+  intros s r idx id [W _]. unfold act_select_raw_item. split; intros Hm; rewrite Hm; cbn [negb]; [reflexivity|].
+  apply (insert_spec (selected s) (r, idx) id W).
+Qed.
+Print Assumptions c10_select_raw.
+
 (** deselect-all: the empty set *)
 Theorem c10_deselect_all : forall s, selected (act_deselect_all s) = [].
 Proof. reflexivity. Qed.
